@@ -429,7 +429,7 @@ func c42Run(r *rand.Rand, kind int, mt bool, fixed []string, allowUncovered bool
 		}
 		return sc
 	}
-	nops := 4 + r.Intn(28)
+	nops := 8 + r.Intn(48)
 	// sizes of one case cluster around a few classes so that reuse actually happens
 	var favourite []int
 	for i := 0; i < 1+r.Intn(3); i++ {
@@ -506,9 +506,9 @@ func TestVerifC42(t *testing.T) {
 		{c42IB, []string{"g3", "f0", "p0", "g4"}},                          // covered: clean reuse with a longer length
 		{c42IB, []string{"g0", "f0", "p0", "g16", "g-1"}},                  // default length
 		{c42IB, []string{"g4096", "f0", "p0", "g4096", "g4097", "f1", "p1", "g4097"}},
-		{c42IB, []string{"g4", "f0", "r0,0", "p0", "g4"}},                  // UNCOVERED put: Proofs/Pool.v dirty_witness
-		{c42IB, []string{"g3", "r0,4", "w0,3", "r0,3", "p0", "g4"}},        // UNCOVERED put: slot beyond len
-		{c42IB, []string{"g1", "n0,8,8,1", "r0,2", "p0", "g8"}},            // UNCOVERED put of a caller-made slice
+		{c42IB, []string{"g4", "f0", "r0,0", "p0", "g4"}},                  // put after re-slicing shorter: the pre-beefe1b7 defect (replay fixes/C42-itembuf-put-clears-len-only)
+		{c42IB, []string{"g3", "r0,4", "w0,3", "r0,3", "p0", "g4"}},        // non-zero slot beyond len at Put
+		{c42IB, []string{"g1", "n0,8,8,1", "r0,2", "p0", "g8"}},            // Put of a caller-made dirty slice
 	}
 	for i := 0; i < w.N; i++ {
 		if !w.Want(i) {
@@ -523,8 +523,9 @@ func TestVerifC42(t *testing.T) {
 		} else {
 			kind := r.Intn(3)
 			mt := r.Intn(4) == 0
-			// a small share of item-buffer cases leaves the writer.go discipline (reslices / replaces B before Put)
-			allow := kind != c42IB || r.Intn(12) == 0
+			// half of the item-buffer cases stay within the writer.go discipline (itemBuf.B never reassigned), the
+			// other half reslices / replaces B before Put like the other kinds
+			allow := kind != c42IB || r.Intn(2) == 0
 			sc = c42Run(r, kind, mt, nil, allow)
 			class = c42KindName[kind]
 			if mt {
@@ -541,10 +542,7 @@ func TestVerifC42(t *testing.T) {
 			class += "/panic"
 		}
 		js := map[string]any{"kind": c42KindName[sc.kind], "ops": sc.desc, "reuse": sc.reuse, "cross_worker_reuse": sc.crossReuse}
-		if sc.kind == c42IB && sc.uncovered > 0 {
-			// canonical key of the known weakness: an item buffer was Put while a non-zero slot lay at or beyond len
-			js["key"] = "itembuf-put-uncovered"
-		}
+		js["uncovered_puts"] = sc.uncovered
 		w.Extra["reuse_total"] = c42AddInt(w.Extra["reuse_total"], sc.reuse)
 		w.Extra["cross_worker_reuse_total"] = c42AddInt(w.Extra["cross_worker_reuse_total"], sc.crossReuse)
 		term := vApp("mkCase", c42KindName[sc.kind], vList(sc.ops), vList(sc.gets))
